@@ -173,9 +173,14 @@ def gen_history(rng, cfg, length=None, admin_jobs=True):
         elif admin_jobs and r < 0.96:
             evs.append({'op': 'job', 'kind': rng.choice(['rebuild_queues', 'delete_queues', 'force_merge_queues'])})
         elif admin_jobs and r < 0.98:
-            evs.append({'op': 'job', 'kind': 'create_branch', 'branch': rng.choice(
+            ev = {'op': 'job', 'kind': 'create_branch', 'branch': rng.choice(
                 ['development/4.4', 'development/5.2', 'development/11.0', 'stabilization/4.3.0',
-                 'development/3.0', 'development/6'])})
+                 'development/3.0', 'development/6'])}
+            if rng.random() < 0.4:
+                # an explicit branching point: the tip of one of the development branches (often one the cascade
+                # rules must refuse: the new branch would not contain its predecessors)
+                ev['from'] = rng.choice(['lowest', 'highest', 'middle'])
+            evs.append(ev)
         elif admin_jobs:
             evs.append({'op': 'job', 'kind': 'delete_branch', 'branch': rng.choice(cfg.dests)})
         else:
@@ -328,6 +333,11 @@ class Run:
             settings = {}
             if kind in ('create_branch', 'delete_branch'):
                 settings['branch'] = ev['branch']
+            if kind == 'create_branch' and ev.get('from'):
+                devs = sorted((n for n in refs if n.startswith('development/')), key=version_key)
+                if devs:
+                    pick = {'lowest': devs[0], 'highest': devs[-1], 'middle': devs[len(devs) // 2]}[ev['from']]
+                    settings['branch_from'] = refs[pick]
             status = w.job(kind, **settings)
             drained = w.drain() if kind in ('rebuild_queues', 'create_branch') else []
             return 'job', {'kind': kind, 'status': status, 'branch': ev.get('branch'), 'drained': drained}
